@@ -435,6 +435,62 @@ def gen_oct(rng, nsets, nq):
     return ops
 
 
+
+# ---- AMRDensityGrid (oracle only: the model side answers with constants)
+
+AMRD_N = [(1, 1, 1), (2, 2, 2), (4, 4, 4), (6, 3, 12), (3, 3, 3), (8, 4, 2), (2, 6, 10), (12, 12, 4)]
+
+
+def gen_amrd(rng, ngrids, nloc, nray):
+    import math
+    ops = []
+    for gi in range(ngrids):
+        kind, a, s = rand_box(rng)
+        while kind in ("huge", "tiny"):
+            kind, a, s = rand_box(rng)
+        n = rng.choice(AMRD_N)
+        per = [rng.randint(0, 1) for _ in range(3)] if gi % 3 else [0, 0, 0]
+        depth = rng.choice([0, 1, 2, 3, 4])
+        focus = [a[i] + s[i] * rng.random() for i in range(3)]
+        ops.append("amrd new %s %d %d %d %d %d %d %d %d %s" % (" ".join(fb(v) for v in a + s), n[0], n[1], n[2],
+                                                            per[0], per[1], per[2], rng.randrange(1 << 30), depth,
+                                                            " ".join(fb(v) for v in focus)))
+        for _ in range(nloc):
+            k = rng.choice(["inside", "inside", "focus", "wall", "lowface"])
+            if k == "inside":
+                pt = [a[i] + s[i] * rng.random() for i in range(3)]
+            elif k == "focus":
+                pt = [focus[i] + 0.05 * s[i] * rng.gauss(0, 1) for i in range(3)]
+            elif k == "wall":     # dyadic fractions of the box: walls of refined cells (when the block count is a power of two)
+                pt = [a[i] + s[i] * (rng.randint(0, 63) / 64.0) if rng.random() < 0.7 else a[i] + s[i] * rng.random() for i in range(3)]
+            else:
+                pt = [a[i] if rng.random() < 0.5 else a[i] + s[i] * rng.random() for i in range(3)]
+            # stay clear of the top faces and (for block counts with odd factors) of exact block walls:
+            # the AMR locate defect (known finding) would abort the harness here
+            pt = [min(max(pt[i], a[i]), a[i] + s[i] * (1.0 - 1e-9)) for i in range(3)]
+            ops.append("amrd loc " + " ".join(fb(v) for v in pt))
+        L = min(s)
+        for _ in range(nray):
+            pt = [a[i] + s[i] * (0.02 + 0.96 * rng.random()) for i in range(3)]
+            dk = rng.choice(["axis", "generic", "generic", "plane-diag", "diag"])
+            if dk == "axis":
+                d = [0.0, 0.0, 0.0]
+                d[rng.randrange(3)] = rng.choice([1.0, -1.0])
+            elif dk == "generic":
+                d = [rng.gauss(0, 1) for _ in range(3)]
+            elif dk == "plane-diag":
+                d = [rng.choice([1.0, -1.0]), rng.choice([1.0, -1.0]), 0.0]
+                rng.shuffle(d)
+            else:
+                d = [rng.choice([1.0, -1.0]) for _ in range(3)]
+            nn = math.sqrt(sum(v * v for v in d))
+            d = [v / nn for v in d]
+            sh = rng.choice([1.0, 0.5, 2.3])
+            u = rng.choice([1e-5, 10 ** rng.uniform(-3, -1), rng.uniform(0.1, 1.5), rng.uniform(1.5, 5.0), 1e3 if not any(per) else 4.0])
+            ops.append("amrd ray %s" % " ".join(fb(v) for v in pt + d + [1.5 * sh * L * u, sh]))
+    return ops
+
+
 # --------------------------------------------------------------------------- run
 
 def cmp_exact(a, b, op):
@@ -481,7 +537,7 @@ def cmp_num(a, b, op):
     return True
 
 
-GROUP = {"buckets": lambda op: op.startswith("pl new"), "octree": lambda op: op.startswith("oct new"), "amr": lambda op: op.startswith("amr new"), "cartesian": lambda op: op.startswith("cart medium")}
+GROUP = {"amrdensitygrid": lambda op: op.startswith("amrd new"), "buckets": lambda op: op.startswith("pl new"), "octree": lambda op: op.startswith("oct new"), "amr": lambda op: op.startswith("amr new"), "cartesian": lambda op: op.startswith("cart medium")}
 
 
 def harness_kw():
@@ -557,6 +613,7 @@ def run(ctx):
         ("amr", gen_amr(rng, ctx.budget(40, 600), ctx.budget(25, 60), ctx.budget(6, 12))),
         ("buckets", gen_pl(rng, ctx.budget(60, 1500), ctx.budget(25, 60))),
         ("octree", gen_oct(rng, ctx.budget(40, 800), ctx.budget(20, 40))),
+        ("amrdensitygrid", gen_amrd(rng, ctx.budget(25, 400), ctx.budget(12, 30), ctx.budget(30, 80))),
         ("cartesian", gen_cart(rng, ctx.budget(40, 800), ctx.budget(25, 60), ctx.budget(40, 120), ctx.thorough)),
     ]
     if corpus:
